@@ -6,6 +6,7 @@ import base64
 import importlib
 import json
 import os
+import re
 import shutil
 import subprocess
 import sys
@@ -18,8 +19,10 @@ import gen_c19
 # CPython reference probe: runs in a fresh interpreter (-I -S), reads one JSON object on stdin.
 # ----------------------------------------------------------------------------------------------
 PROBE = r'''
-import sys, json, types, importlib
+import sys, json, types, importlib, io
 inp = json.load(sys.stdin)
+_real_stdout = sys.stdout
+sys.stdout = io.StringIO()        # whatever the modules / the program print must not mix with the JSON answer
 sys.path.insert(0, inp["path"])
 sys.dont_write_bytecode = True
 out = {"targets": {}}
@@ -89,7 +92,7 @@ for t in inp["targets"]:
         except BaseException as e:
             fi[n] = "err:" + type(e).__name__
     out["targets"][t]["from_import"] = fi
-json.dump(out, sys.stdout)
+json.dump(out, _real_stdout)
 '''
 
 
@@ -327,6 +330,73 @@ def _purge(tops):
     importlib.invalidate_caches()
 
 
+def _purge_handles(tops):
+    """forget pyflyby's per-name handles (cached `exists` / `filename` / `exports`) but leave sys.modules alone"""
+    from pyflyby._modules import ModuleHandle
+    for k in list(ModuleHandle._cls_cache):
+        if str(k).split(".")[0] in tops:
+            del ModuleHandle._cls_cache[k]
+
+
+def _exports_obs(t):
+    """canonical observation of `ModuleHandle(t).exports`: sorted names | None (nothing exported) | {"err": ...}"""
+    from pyflyby._modules import ModuleHandle
+    try:
+        e = ModuleHandle(t).exports
+        if e is None:
+            return None, False
+        names = []
+        for imp in e:
+            s = imp.split
+            if s.module_name != t or s.import_as not in (None, s.member_name):
+                names.append("?%s:%s:%s" % (s.module_name, s.member_name, s.import_as))
+            else:
+                names.append(s.member_name)
+        # an empty ImportSet and None both mean "nothing exported": what matters (and what the
+        # oracle checks) is that the star import is then kept
+        return (sorted(set(names)) or None), (not names)
+    except Exception as ex:
+        return {"err": type(ex).__name__, "msg": str(ex)[:160]}, False
+
+
+def _warm(t, state, tops):
+    """bring the process into `state` for module `t` (see gen_case: rewrite_state), starting from a purged one"""
+    _purge(tops)
+    if state == "imported":
+        try:
+            importlib.import_module(t)
+        except BaseException:
+            pass
+    elif state == "twice":
+        _exports_obs(t)
+    _purge_handles(tops)
+
+
+WARM_STATES = ("imported", "twice")
+
+
+def _deletes_own_reexport(src, pkg):
+    """does the module source delete (top-level `del`) a name it binds by a `from` import out of package `pkg`
+    (relative, or absolute below `pkg`)?  See exhaustive_cases."""
+    aliases, deleted = set(), set()
+    for st in ast.parse(src).body:
+        if isinstance(st, ast.ImportFrom) and (st.level or (st.module or "").split(".")[0] == pkg):
+            aliases.update(a.asname or a.name for a in st.names)
+        elif isinstance(st, ast.Delete):
+            out = []
+            for t in st.targets:
+                _target_names(t, out)
+            deleted.update(n for n, k in out)
+    return bool(aliases & deleted)
+
+
+def _cold_if_cli(case):
+    """the command-line tools run in a fresh process: compare them with a library call in a fresh state"""
+    if case.get("cli"):
+        case["rewrite_state"] = "cold"
+    return case
+
+
 def target_file(case, t):
     """(relpath, is_init) of the source file of module `t` in the universe, or (None, False)"""
     rel = t.replace(".", "/")
@@ -498,10 +568,12 @@ class C19(Prop):
     rule = ("universes of generated module files in a fresh directory on sys.path (plain module, package __init__, module in a "
             "package, sub-package, nested module; defs/async defs/classes/simple, chained, tuple, annotated, attribute "
             "assignments; literal, tuple, augmented, annotated, computed and broken __all__; private names; imports from own "
-            "submodules (relative and absolute, aliased, star), from siblings/parents, from foreign modules; conditional "
-            "definitions) x programs star-importing them (one or two star imports, shadowing imports before/after, reads of the "
+            "submodules (relative and absolute, star; 1-3 names per statement in random order, each unaliased or under a public or "
+            "private alias, the source name public, private or bound to a module object in the submodule), from "
+            "siblings/parents, from foreign modules; conditional definitions; exports computed in a fresh process state, after the "
+            "module was imported and a second time, the rewrite in one of these three states) x programs star-importing them (one or two star imports, shadowing imports before/after, reads of the "
             "star-bound names), plus uninspectable targets (missing, syntax error, namespace package, builtin, extension, "
-            "undecodable, non-string __all__), facade modules that export nothing although `import *` binds names, and files on disk "
+            "undecodable, non-string __all__, dotted name below a missing package or below a plain module), facade modules that export nothing although `import *` binds names, and files on disk "
             "star-importing a sibling module while another sys.path/PYTHONPATH directory holds a module of the same name "
             "(file's directory absent / first / after it; library call and replace-star-imports tool; sibling pre-imported); non-trivial = the target exports at least one name or its star import must be kept")
     trusted_base = ["CPython 3.12 import system and `from M import *` / `from M import x` semantics (reference, run in a fresh interpreter)",
@@ -530,6 +602,7 @@ class C19(Prop):
         "a, b = [1], [2]", "a: int = [3]", "a: int", "_a = [1]", "b = [0]\nb += [1]",
         "import os", "import os as a", "from os.path import join as a", "from {F} import fz", "from {F} import *",
         "from {P}.sub import sx", "from {P}.sub import sy as a", "from {P} import sub", "import {P}.sub",
+        "from {P}.sub import _sp as b", "from {P}._compat import cfn, json as a",
         "__all__ = ['a']", "__all__ = ('a', 'b')", "__all__ = ['_a', 'a']", "__all__ = []", "__all__ += ['b']",
         "__all__ = ['a'] + ['b']", "__all__ += list(('b',))", "__all__: list = ['a']", "__all__ = ['a', 1]",
         "import os\nos.environ['K_C19'] = 'v'", "from {F} import FK\nFK.flag, b = [1], [2]",
@@ -538,7 +611,12 @@ class C19(Prop):
         "if True:\n    a = [1]", "try:\n    b = [1]\nexcept Exception:\n    b = None", "pass",
     ]
     INIT_ONLY = ["from .sub import sx", "from .sub import sy as a", "from . import sub", "from .sub import *",
-                 "from .sp import leaf", "from .sp import spx as leaf", "from .sp.leaf import lf as b"]
+                 "from .sp import leaf", "from .sp import spx as leaf", "from .sp.leaf import lf as b",
+                 # own-submodule re-exports: private source name / public alias and the reverse; names bound to
+                 # module objects in the submodule, first and second in the statement
+                 "from .sub import _sp as a", "from .sub import sx as _a", "from .sub import _sp as _a, sy as b",
+                 "from ._compat import text_type, json", "from ._compat import json, text_type",
+                 "from ._compat import osp as a", "from ._compat import _fast as b, cfn"]
 
     def exhaustive_cases(self, tier, rng):
         import itertools
@@ -551,24 +629,26 @@ class C19(Prop):
             for n, (i, j) in enumerate(pairs):
                 tag = "e%s%03d%03d" % (kind[0], i, j)
                 u = gen_c19.U(tag)
-                if T[j].startswith("del ") and T[i].startswith(("from {P}", "from .")) and (" as a" in T[i] or " as b" in T[i]):
-                    # `del` of an own-package re-export: the clean tree still exports it (candidate defect CD-D,
-                    # reported, Witness.del_reexport_fixed) - not generated
-                    continue
                 src = "\n".join(T[k].replace("{F}", u.F).replace("{P}", u.P) for k in (i, j)) + "\n"
                 try:
                     compile(src, "<t>", "exec")
                 except SyntaxError:
                     continue
-                files = {u.P + "/__init__.py": "", u.P + "/sub.py": gen_c19.SUB_SRC, u.P + "/sp/__init__.py": "spx = ['spx']\n",
+                if _deletes_own_reexport(src, u.P):
+                    # `del` of an own-package re-export: the clean tree still exports it (candidate defect CD-D,
+                    # reported, Witness.del_reexport_fixed) - not generated
+                    continue
+                files = {u.P + "/__init__.py": "", u.P + "/sub.py": gen_c19.SUB_SRC, u.P + "/_compat.py": gen_c19.COMPAT_SRC,
+                         u.P + "/sp/__init__.py": "spx = ['spx']\n",
                          u.P + "/sp/leaf.py": gen_c19.LEAF_SRC, u.F + ".py": gen_c19.FOREIGN_SRC, u.M + ".py": "pm = 1\n"}
                 files[u.target_path(kind)] = src
                 t = u.target_name(kind)
-                reads = [x for x in ("a", "b", "sx", "fz", "leaf", "sub", "os") if rng.random() < 0.5]
+                reads = [x for x in ("a", "b", "sx", "fz", "leaf", "sub", "os", "json", "text_type", "cfn") if rng.random() < 0.5]
                 # only names the module can provide at all
-                reads = [x for x in reads if ("%s" % x) in src]
+                reads = [x for x in reads if re.search(r"(?<![\w.])%s\b" % x, src)]
                 program = "from %s import *\n\n_r = (%s)\n" % (t, "".join(r + ", " for r in reads))
-                out.append(dict(files=files, targets=[t], program=program, reads=reads, kind=kind, cli=False))
+                out.append(dict(files=files, targets=[t], program=program, reads=reads, kind=kind, cli=False,
+                                rewrite_state=("cold", "imported", "twice")[n % 3]))
         return out
 
     def gen_case(self, rng, i, tier):
@@ -587,7 +667,8 @@ class C19(Prop):
             if not reads and g.star_names():
                 reads = [rng.choice(g.star_names())]
                 program = "from %s import *\n\n_r = (%s,)\n" % (t, reads[0])
-            return dict(files=files, targets=[t], program=program, reads=reads, kind="facade:" + kind, cli=False)
+            return _cold_if_cli(dict(files=files, targets=[t], program=program, reads=reads, kind="facade:" + kind,
+                        cli=(rng.random() < 0.04), rewrite_state=rng.choice(["cold", "cold", "imported", "twice"])))
         u, g, files = gen_c19.gen_universe(rng, tag, kind, max_items=rng.choice([3, 5, 8]))
         t = u.target_name(kind)
         extra = []
@@ -600,8 +681,12 @@ class C19(Prop):
             extra = [u.P + ".sub"]
         program, reads = gen_c19.gen_program(rng, u, t, g.star_names(), extra, g)
         targets = [t] + [e for e in extra if e != t]
-        return dict(files=files, targets=targets, program=program, reads=reads, kind=kind,
-                    cli=(rng.random() < (0.02 if tier != "thorough" else 0.01)))
+        # rewrite_state: what the process has done before `replace_star_imports` runs - nothing ("cold": module and
+        # handle caches purged), the star-imported modules already imported ("imported"), or their exports already
+        # computed once ("twice"; handle cache dropped, sys.modules as that computation left it)
+        return _cold_if_cli(dict(files=files, targets=targets, program=program, reads=reads, kind=kind,
+                    cli=(rng.random() < (0.03 if tier != "thorough" else 0.01)),
+                    rewrite_state=rng.choice(["cold", "cold", "imported", "twice"])))
 
     def _gen_uninspectable(self, rng, tag):
         u = gen_c19.U(tag)
@@ -612,6 +697,12 @@ class C19(Prop):
         t = u.M
         if how == "missing":
             purge = [t]
+        elif how == "missing_dotted":
+            t = "nopkg_%s.%s" % (tag, rng.choice(["mod", "sub.mod"]))
+            purge = ["nopkg_" + tag]
+        elif how == "in_module":
+            files[u.M + ".py"] = "pm = 1\n"
+            t = u.M + "." + rng.choice(["sub", "pm"])
         elif how == "syntax":
             files[t + ".py"] = rng.choice(["def f(:\n", "x = = 1\n", "a = 1\n  b = 2\n", "class\n", "__all__ = ['a'\n"])
         elif how == "namespace":
@@ -645,8 +736,9 @@ class C19(Prop):
             # an explicit import after the (kept) star that rebinds a name the star provides
             prog_lines.append("from %s import fy as %s" % (u.F, reads[0]))
         program = "\n".join(prog_lines) + "\n\n_r = (%s)\n" % "".join(r + ", " for r in reads)
-        return dict(files=files, dirs=dirs, purge=purge, targets=[t] + extra, program=program, reads=reads,
-                    kind="uninspectable:" + how, cli=False)
+        return _cold_if_cli(dict(files=files, dirs=dirs, purge=purge, targets=[t] + extra, program=program, reads=reads,
+                    kind="uninspectable:" + how, cli=(rng.random() < 0.06),
+                    rewrite_state=rng.choice(["cold", "cold", "imported", "twice"])))
 
     # -- implementation ----------------------------------------------------------------------
     def run_impl(self, case):
@@ -664,32 +756,45 @@ class C19(Prop):
             try:
                 for t in case["targets"]:
                     _purge(tops)
-                    try:
-                        e = ModuleHandle(t).exports
-                        if e is None:
-                            obs["exports"][t] = None
-                        else:
-                            names = []
-                            for imp in e:
-                                s = imp.split
-                                if s.module_name != t or s.import_as not in (None, s.member_name):
-                                    names.append("?%s:%s:%s" % (s.module_name, s.member_name, s.import_as))
-                                else:
-                                    names.append(s.member_name)
-                            # an empty ImportSet and None both mean "nothing exported": what matters (and what the
-                            # oracle checks) is that the star import is then kept
-                            obs["exports"][t] = sorted(set(names)) or None
-                            if not names:
-                                obs["exports_empty_not_none"] = True
-                    except Exception as ex:
-                        obs["exports"][t] = {"err": type(ex).__name__, "msg": str(ex)[:160]}
+                    obs["exports"][t], empty = _exports_obs(t)
+                    if empty:
+                        obs["exports_empty_not_none"] = True
+                # the same question asked in a process that has already imported the module / already computed its
+                # exports once (sys.modules populated; pyflyby's handle cache dropped): the answer is a function of
+                # the module source, so it is judged by the same oracle
+                obs["exports_warm"] = {}
+                for t in case["targets"]:
+                    if target_file(case, t)[0] is None:
+                        continue
+                    w = {}
+                    for state in WARM_STATES:
+                        _warm(t, state, tops)
+                        w[state] = _exports_obs(t)[0]
+                    obs["exports_warm"][t] = w
                 _purge(tops)
+                rs = case.get("rewrite_state", "cold")
+                if rs in WARM_STATES:
+                    for t in case["targets"]:
+                        if target_file(case, t)[0] is not None:
+                            if rs == "imported":
+                                try:
+                                    importlib.import_module(t)
+                                except BaseException:
+                                    pass
+                            else:
+                                _exports_obs(t)
+                    _purge_handles(tops)
                 try:
                     out = replace_star_imports(case["program"])
                     obs["new"] = out.text.joined
                 except Exception as ex:
                     obs["new"] = None
                     obs["replace_err"] = type(ex).__name__ + ": " + str(ex)[:160]
+                if rs in WARM_STATES:
+                    # what the rewrite worked with (the handles it used are still cached)
+                    for t in case["targets"]:
+                        if t in obs["exports_warm"]:
+                            obs["exports_warm"][t]["rewrite"] = _exports_obs(t)[0]
                 if case.get("cli"):
                     obs["cli"] = self._run_cli(root, case)
             finally:
@@ -705,6 +810,9 @@ class C19(Prop):
                 ex = obs["exports"].get(t)
                 if isinstance(ex, list):
                     ns.update(n for n in ex if n.isidentifier())
+                for exw in obs["exports_warm"].get(t, {}).values():
+                    if isinstance(exw, list):
+                        ns.update(n for n in exw if n.isidentifier() and not n.startswith("?"))
                 rel, is_init = target_file(case, t)
                 if rel is not None and isinstance(case["files"][rel], str):
                     try:
@@ -925,70 +1033,48 @@ sys.stdout.write(out.text.joined)
             ok, why, an = self.inspectable(case, t)
             stdlib_target = target_file(case, t)[0] is None and c.get("import_ok")
             analyses[t] = an
-            exports_failed = isinstance(ex, dict)
             nonstr_all = isinstance(c.get("all"), list) and any(x is None for x in c["all"])
-            if ok and exports_failed and not nonstr_all and c.get("import_ok"):
-                fails.append(dict(what="exports-raised-on-inspectable-module", target=t, err=ex,
-                                  all_by_annassign=bool(an["all"] and an["all"][0] == "lit" and an["all"][2])))
-            if not ok and not exports_failed and not stdlib_target:
-                fails.append(dict(what="exports-returned-for-uninspectable-module", target=t, why=why, got=ex))
+            if an is not None:
+                for m in an["own_star_mods"]:
+                    for n in (cpy.get("stars", {}).get(m) or []):
+                        an["kinds"][n] = sorted(set(an["kinds"].get(n, [])) | {"own_star"})
+            # the exports the rewrite worked with: computed in the process state the case prescribes
+            warm = obs.get("exports_warm", {}).get(t, {})
+            ex_rw = warm["rewrite"] if "rewrite" in warm else ex
+            rw_failed = isinstance(ex_rw, dict)
             # "a module that cannot be inspected leaves the star import unchanged"; also: nothing found => unchanged
-            if new_imports is not None and t in star_targets and (exports_failed or ex is None):
+            if new_imports is not None and t in star_targets and (rw_failed or ex_rw is None):
                 if (t, "*", None) not in new_imports:
-                    fails.append(dict(what="star-import-not-kept", target=t, exports=ex, new=new[:300]))
+                    fails.append(dict(what="star-import-not-kept", target=t, exports=ex_rw, new=new[:300]))
                 extra = [n for (m, n, a) in new_imports if m == t and n != "*"
                          and (m, n, a) not in prog_imports_orig]
                 if extra:
                     fails.append(dict(what="names-invented-for-kept-star", target=t, names=extra))
-            if new_imports is not None and t in star_targets and isinstance(ex, list):
+            if new_imports is not None and t in star_targets and isinstance(ex_rw, list):
                 if (t, "*", None) in new_imports:
-                    fails.append(dict(what="star-import-left-although-exports-found", target=t, exports=ex, new=new[:300]))
+                    fails.append(dict(what="star-import-left-although-exports-found", target=t, exports=ex_rw, new=new[:300]))
                 got = {n for (m, n, a) in new_imports if m == t and (m, n, a) not in prog_imports_orig}
-                if not got <= set(ex):
+                if not got <= set(ex_rw):
                     fails.append(dict(what="replacement-imports-names-outside-exports", target=t,
-                                      names=sorted(got - set(ex)), exports=ex))
-            if not ok or exports_failed or not c.get("import_ok"):
-                continue
-            exs = set(ex or [])
-            kinds = an["kinds"]
-            for m in an["own_star_mods"]:
-                for n in (cpy.get("stars", {}).get(m) or []):
-                    kinds[n] = sorted(set(kinds.get(n, [])) | {"own_star"})
-            allst = an["all"]
-            fi = c.get("from_import", {})
-            if allst and allst[0] == "lit":
-                entries = allst[1]
-                if isinstance(c.get("all"), list) and c["all"] != entries:
-                    fails.append(dict(what="harness: literal __all__ misjudged", target=t, mine=entries, cpython=c["all"]))
+                                      names=sorted(got - set(ex_rw)), exports=ex_rw))
+            # the export list itself: as computed in a fresh process state, and (where the answer differs) as computed
+            # after the module was imported / its exports were computed once before / at rewrite time
+            judged = []
+            for state in ("cold",) + tuple(sorted(warm)):
+                e = ex if state == "cold" else warm[state]
+                if e in judged:
                     continue
-                want = {e for e in entries if not e.startswith("_") and "." not in e}
-                if exs != want:
-                    fails.append(dict(what="exports-differ-from-literal-__all__", target=t, got=sorted(exs), want=sorted(want),
-                                      all_by_annassign=bool(allst[2]),
-                                      extra_kinds={n: kinds.get(n, []) for n in sorted(exs - want)}))
-                continue
-            # no literal __all__: exactly the public top-level defs/classes/assigned names + own re-exports
-            for n in sorted(exs):
-                k = set(kinds.get(n, []))
-                if n.startswith("_") or "." in n:
-                    fails.append(dict(what="export-private-or-dotted", target=t, name=n))
-                elif not k:
-                    fails.append(dict(what="export-not-bound-at-top-level", target=t, name=n))
-                elif k <= {"import_foreign"}:
-                    fails.append(dict(what="export-merely-imported-from-elsewhere", target=t, name=n))
-                elif "submodule" in k and k <= {"import_foreign", "submodule"}:
-                    # a submodule object is neither a def/class/assigned name nor a name re-exported *from* a submodule
-                    fails.append(dict(what="export-is-submodule-object", target=t, name=n,
-                                      aliased=(n in an["aliased_submodules"])))
-                if n.isidentifier() and not fi.get(n, "").startswith(("ok", "module")):
-                    fails.append(dict(what="export-not-importable", target=t, name=n, cpython=fi.get(n)))
-            for n, k in sorted(kinds.items()):
-                if n.startswith("_") or n in exs:
+                if state != "cold" and not c.get("import_ok"):
+                    # a module whose import raises leaves sys.modules half-filled: what a later computation sees is
+                    # outside the property (it presupposes a module one can import from)
                     continue
-                req = set(k) & REQUIRED_KINDS
-                if req:
-                    fails.append(dict(what="export-missing", target=t, name=n, kinds=sorted(k),
-                                      alias_clash=(n in an["alias_clash"])))
+                judged.append(e)
+                fs = self._judge_exports(t, e, ok, why, an, c, stdlib_target, nonstr_all)
+                if state != "cold":
+                    for f in fs:
+                        f["process_state"] = state
+                        f["exports_fresh_process"] = ex
+                fails.extend(fs)
         # the program: every name it reads stays bound to the same object
         pr = cpy.get("program", {})
         if new is not None and new_imports is not None and pr.get("orig_err") is None and "same" in pr:
@@ -1024,7 +1110,65 @@ sys.stdout.write(out.text.joined)
                 except SyntaxError:
                     if new_imports is not None:
                         fails.append(dict(what="replace-star-imports tool wrote unparsable file", tool=cli["replace_out"][:300]))
+        # (stable) failures no known-finding family claims come first, so that the cut below cannot hide them
+        fails.sort(key=lambda f: any(fam(case, f) for fam in self.families.values()))
         return fails[:8]
+
+    def _judge_exports(self, t, ex, ok, why, an, c, stdlib_target, nonstr_all):
+        """the first sentence of the property for one observed export list `ex` of target `t`"""
+        fails = []
+        exports_failed = isinstance(ex, dict)
+        if ok and exports_failed and not nonstr_all and c.get("import_ok"):
+            fails.append(dict(what="exports-raised-on-inspectable-module", target=t, err=ex,
+                              all_by_annassign=bool(an["all"] and an["all"][0] == "lit" and an["all"][2])))
+        if not ok and not exports_failed and not stdlib_target:
+            fails.append(dict(what="exports-returned-for-uninspectable-module", target=t, why=why, got=ex))
+        if not ok or exports_failed or not c.get("import_ok"):
+            return fails
+        exs = set(ex or [])
+        kinds = an["kinds"]
+        allst = an["all"]
+        fi = c.get("from_import", {})
+        if allst and allst[0] == "lit":
+            entries = allst[1]
+            if isinstance(c.get("all"), list) and c["all"] != entries:
+                fails.append(dict(what="harness: literal __all__ misjudged", target=t, mine=entries, cpython=c["all"]))
+                return fails
+            want = {e for e in entries if not e.startswith("_") and "." not in e}
+            if exs != want:
+                fails.append(dict(what="exports-differ-from-literal-__all__", target=t, got=sorted(exs), want=sorted(want),
+                                  all_by_annassign=bool(allst[2]),
+                                  extra_kinds={n: kinds.get(n, []) for n in sorted(exs - want)}))
+            return fails
+        # no literal __all__: exactly the public top-level defs/classes/assigned names + own re-exports
+        for n in sorted(exs):
+            k = set(kinds.get(n, []))
+            if n.startswith("_") or "." in n:
+                fails.append(dict(what="export-private-or-dotted", target=t, name=n))
+            elif not k:
+                fails.append(dict(what="export-not-bound-at-top-level", target=t, name=n))
+            elif k <= {"import_foreign"}:
+                fails.append(dict(what="export-merely-imported-from-elsewhere", target=t, name=n))
+            elif "submodule" in k and k <= {"import_foreign", "submodule"}:
+                # a submodule object is neither a def/class/assigned name nor a name re-exported *from* a submodule
+                fails.append(dict(what="export-is-submodule-object", target=t, name=n,
+                                  aliased=(n in an["aliased_submodules"])))
+            if n.isidentifier() and not fi.get(n, "").startswith(("ok", "module")):
+                fails.append(dict(what="export-not-importable", target=t, name=n, cpython=fi.get(n)))
+        for n, k in sorted(kinds.items()):
+            if n.startswith("_") or n in exs:
+                continue
+            req = set(k) & REQUIRED_KINDS
+            if req:
+                fails.append(dict(what="export-missing", target=t, name=n, kinds=sorted(k),
+                                  alias_clash=(n in an["alias_clash"])))
+        return fails
+
+    @staticmethod
+    def _exports_at_rewrite(obs, t):
+        """the export list `replace_star_imports` worked with (process state prescribed by the case)"""
+        warm = obs.get("exports_warm", {}).get(t, {})
+        return warm["rewrite"] if "rewrite" in warm else obs["exports"].get(t)
 
     @staticmethod
     def _name_of_nameerror(msg):
@@ -1064,7 +1208,7 @@ sys.stdout.write(out.text.joined)
             c = cpy["targets"].get(t, {})
             if name in (c.get("star") or []):
                 an = analyses.get(t)
-                ex = obs["exports"].get(t)
+                ex = self._exports_at_rewrite(obs, t)
                 out["targets"][t] = dict(
                     kinds=(an["kinds"].get(name, []) if an else None),
                     all=(an["all"][0] if an and an["all"] else None),
@@ -1110,7 +1254,7 @@ sys.stdout.write(out.text.joined)
                 tbl = []
                 for (m, n, a) in blk:
                     if n == "*" and m is not None and m in obs["exports"]:
-                        ex = obs["exports"][m]
+                        ex = self._exports_at_rewrite(obs, m)
                         tbl.append(dict(module=m, names=(None if isinstance(ex, dict) else (ex or []))))
                     elif n == "*" and m is not None and not any(e["module"] == m for e in tbl):
                         tbl.append(dict(module=m, names=None))
@@ -1136,6 +1280,12 @@ sys.stdout.write(out.text.joined)
                 got = ex or []
                 if got != want:
                     return "exports(%s): impl=%r model=%r" % (t, got, want)
+                if obs["cpy"]["targets"].get(t, {}).get("import_ok"):
+                    # the model has no process state: the same answer is expected after the module was imported /
+                    # its exports were computed before (only for modules whose import succeeds, see the oracle)
+                    for state, exw in sorted(obs.get("exports_warm", {}).get(t, {}).items()):
+                        if isinstance(exw, dict) or (exw or []) != want:
+                            return "exports(%s) in process state %r: impl=%r model=%r" % (t, state, exw, want)
             else:
                 want = sorted({canon_import(i["module"], i["member"], i["as"]) for i in r["ok"]})
                 got = sorted({canon_import(m, n, a) for (m, n, a) in leading_import_block(obs["new"])})
@@ -1177,6 +1327,10 @@ sys.stdout.write(out.text.joined)
             inc("program_has_reads")
         if obs.get("new") is not None and obs["new"] != case["program"]:
             inc("program_rewritten")
+        inc("rewrite_state_" + case.get("rewrite_state", "cold"))
+        for t, w in obs.get("exports_warm", {}).items():
+            if any(v != obs["exports"].get(t) for v in w.values()):
+                inc("exports_differ_with_process_state")
 
 
 # ----------------------------------------------------------------------------------------------
